@@ -203,12 +203,22 @@ func segsEqual(ex *gosx.Exec, a, b []gosx.Seg) (*gosx.Term, bool) {
 	tt := ex.TT()
 	a, b = gosx.StrSegs(gosx.MkStr(a)), gosx.StrSegs(gosx.MkStr(b))
 	if len(a) != len(b) {
+		if os.Getenv("GOSX_SHAPES") != "" {
+			fmt.Fprintf(os.Stderr, "shape mismatch (len):\n  A=%s\n  B=%s\n", gosx.ShowValue(gosx.MkStr(a)), gosx.ShowValue(gosx.MkStr(b)))
+		}
 		return nil, false
 	}
 	cond := tt.Bool(true)
 	for i := range a {
 		if a[i].K != b[i].K {
-			// dec vs udec of the same value is fine when the value is known non-negative; keep simple: shape mismatch
+			// a signed and an unsigned decimal rendering agree iff the 64-bit values agree and are non-negative
+			if (a[i].K == gosx.SegDec && b[i].K == gosx.SegUDec) || (a[i].K == gosx.SegUDec && b[i].K == gosx.SegDec) {
+				cond = tt.And(cond, tt.And(tt.Eq(a[i].T, b[i].T), tt.Cmp(gosx.OpSLe, tt.BV(0, 64), a[i].T)))
+				continue
+			}
+			if os.Getenv("GOSX_SHAPES") != "" {
+				fmt.Fprintf(os.Stderr, "shape mismatch at %d: %v vs %v\n  A=%s\n  B=%s\n", i, a[i].K, b[i].K, gosx.ShowValue(gosx.MkStr(a)), gosx.ShowValue(gosx.MkStr(b)))
+			}
 			return nil, false
 		}
 		switch a[i].K {
@@ -229,6 +239,23 @@ func segsEqual(ex *gosx.Exec, a, b []gosx.Seg) (*gosx.Term, bool) {
 		}
 	}
 	return cond, true
+}
+
+// forceSegs turns Bool segments that the path condition forces into literals.
+func forceSegs(ex *gosx.Exec, segs []gosx.Seg) []gosx.Seg {
+	tt := ex.TT()
+	out := make([]gosx.Seg, 0, len(segs))
+	for _, g := range segs {
+		if g.K == gosx.SegBool {
+			if ex.Feasible(g.T) == gosx.Unsat {
+				g = gosx.Seg{K: gosx.SegLit, S: "false"}
+			} else if ex.Feasible(tt.Not(g.T)) == gosx.Unsat {
+				g = gosx.Seg{K: gosx.SegLit, S: "true"}
+			}
+		}
+		out = append(out, g)
+	}
+	return gosx.StrSegs(gosx.MkStr(out))
 }
 
 // renderSegs renders a segment list under a model.
@@ -269,7 +296,13 @@ func (c *Ctx) compareStrings(ex *gosx.Exec, st *eqStats, id, what string, goat, 
 		ex.Assert(cond, id, what, map[string]interface{}{"goat": gosx.ShowValue(goat), "ref": gosx.ShowValue(ref)})
 		return
 	}
-	// different shapes: decide on the current model only (sound for violations, incomplete for equivalence)
+	// different shapes: first replace boolean segments whose value the path condition forces
+	ga, rb = forceSegs(ex, ga), forceSegs(ex, rb)
+	if cond, same := segsEqual(ex, ga, rb); same {
+		ex.Assert(cond, id, what, map[string]interface{}{"goat": gosx.ShowValue(goat), "ref": gosx.ShowValue(ref)})
+		return
+	}
+	// still different shapes: decide on the current model only (sound for violations, incomplete for equivalence)
 	m := ex.Model()
 	gs, rs := renderSegs(ga, m), renderSegs(rb, m)
 	if gs != rs {
